@@ -90,6 +90,15 @@ def units(tier, seed):
                 for sk in ("simple", "nbc"):
                     for mx in (False, True):
                         descs.append(dict(engines=list(eng), gens=2, box=box, obj=obj, maximize=mx, Mh=3, seed=s, sprout={"kind": sk, "L": 2}))
+    # a sampling spread that is large compared with the box (the default sample_std_dev = 1.0 on a box of
+    # width 0.3 is such a case): the child's initial population needs many rejection rounds; and the
+    # lower-case spelling of the local method's name
+    kk = 0
+    for eng in shapes_h2():
+        for box in ("B_dec", "B_3d"):
+            kk += 1
+            descs.append(dict(engines=list(eng), gens=1, box=box, obj="lin_corner", maximize=bool(kk % 2), Mh=3, seed=s + kk % 3, sprout={"kind": ("simple", "nbc")[kk % 2], "L": 2},
+                              std_factor=(2.0, 3.5)[kk % 2], loc_method=("l-bfgs-b", "L-BFGS-B")[kk % 2]))
     if tier == "thorough":
         for k, eng in enumerate(shapes_h3_all()):
             descs.append(dict(engines=list(eng), gens=1 + k % 2, box=("B_asym", "B_dec", "B_3d")[k % 3], obj=("lin_corner", "sphere_in")[k % 2],
